@@ -610,10 +610,13 @@ class TexNode(object):
         """
 
         for node in self.text:
+            # text added by an edit has no position in the original source
+            position = getattr(node, 'position', None)
             for match in re.finditer(pattern, node, **kwargs):
                 body = match.group()  # group() returns the full match
                 start = match.start()
-                yield Token(body, node.position + start)
+                yield Token(body, None if position is None
+                            else position + start)
 
     def __descendants(self):
         """Implementation for descendants, hacky workaround for __getattr__
